@@ -714,15 +714,20 @@ func onceCase(c *mon.Case) {
 	outcomes := make([]int, 12)
 	lat := make([]int, 12)
 	for i := range outcomes {
-		switch k := r.IntN(11); {
+		switch k := r.IntN(12); {
 		case k < 4:
 			outcomes[i] = 0
 		case k < 8:
 			outcomes[i] = 1
 		case k < 10:
 			outcomes[i] = 2
-		default:
+		case k < 11:
 			outcomes[i] = 3 // ignores its context: returns only when the harness ends the case
+		default:
+			outcomes[i] = 4 // fails with the bare context.Canceled value although its context is live: an error, the next Resolve tries again
+		}
+		if i > 0 && outcomes[i] == 4 && outcomes[i-1] == 4 {
+			outcomes[i] = 0
 		}
 		lat[i] = r.IntN(4)
 	}
@@ -731,8 +736,21 @@ func onceCase(c *mon.Case) {
 	var mu sync.Mutex
 	var calls []*onceCall
 	var successRet atomic.Int64
+	var abortAll atomic.Pointer[func()]
+	var spinOnce sync.Once
 	fn := func(ctx context.Context) (int, error) {
 		n := int(ncalls.Add(1))
+		if n > 4000 {
+			// the script never fails twice in a row with the bare context.Canceled, so a few calls per caller are the most
+			// a correct Once can make; thousands mean the callers are spinning
+			spinOnce.Do(func() {
+				c.Violate("once", "once-callers-spin", "the function has been called %d times by %d callers: Resolve is looping without ever accepting a result", n, nCallers)
+				if f := abortAll.Load(); f != nil {
+					(*f)()
+				}
+			})
+			return 0, fmt.Errorf("fn-error-%d", n)
+		}
 		oc := &onceCall{n: n, outcome: outcomes[(n-1)%len(outcomes)]}
 		oc.enter = c.Rec("fn", fmt.Sprint("enter call ", n), nil)
 		c.Count("function_calls_observed", 1)
@@ -767,6 +785,9 @@ func onceCase(c *mon.Case) {
 		case 3:
 			<-endCase
 			oc.err = fmt.Errorf("fn-error-%d", n)
+		case 4:
+			oc.err = context.Canceled
+			c.Count("function_returned_bare_canceled", 1)
 		default:
 			select {
 			case <-ctx.Done():
@@ -837,6 +858,12 @@ func onceCase(c *mon.Case) {
 			})
 		}
 	}
+	ab := func() {
+		for _, cl := range cs {
+			cl.cancel()
+		}
+	}
+	abortAll.Store(&ab)
 	close(start)
 	for _, cl := range cs {
 		if cl.timeout {
@@ -844,6 +871,14 @@ func onceCase(c *mon.Case) {
 		}
 	}
 	if !mon.Quiesce(10 * time.Second) {
+		if fn, busy := mon.BusyLoopInLibrary(300 * time.Millisecond); busy {
+			c.Violate("hang", "library-busy-loop", "ten seconds after the last caller was started the process is still not quiescent and a goroutine keeps running inside %s: Resolve loops without obtaining a result (function calls so far: %d)", fn, ncalls.Load())
+			for _, cl := range cs {
+				cl.cancel()
+			}
+			close(endCase)
+			return
+		}
 		close(endCase)
 		c.Inconclusive("no quiescence")
 		return
